@@ -288,6 +288,10 @@ Min(S) == CHOOSE x \in S : \A y \in S : x <= y
 Start(p) == th[p].ops < MaxOps /\ ((Obs \ used # {} /\ StartSub(p, Min(Obs \ used))) \/ StartUnsub(p) \/ StartTerm(p, "E") \/ StartTerm(p, "C"))
 Next == \E p \in P : Internal(p) \/ Start(p)
 Spec == Init /\ [][Next]_vars
+\* model-checking mode with deadlock detection: the only state without a successor is the one in which every thread has used its operations and is
+\* idle again; any other is a call that can never return (a mutex left held, a subject lock never released)
+Finished == (\A p \in P : th[p].pc = "idle" /\ th[p].ops = MaxOps) /\ UNCHANGED vars
+SpecNoStuckCall == Init /\ [][Next \/ Finished]_vars
 
 View == <<conf, mu, cur, ngen, rc, hasE, hasC, aware, G, O, used, nsrc, torn, genOfK, th>>      \* everything but the event register
 
